@@ -4,6 +4,7 @@ pub mod c01;
 pub mod c02;
 pub mod c03;
 pub mod c04;
+pub mod c05;
 pub mod c10;
 pub mod c12;
 pub mod c13;
@@ -20,6 +21,7 @@ pub fn by_id(id: &str) -> Option<Box<dyn Monitor>> {
         "C02" => Box::new(c02::C02),
         "C03" => Box::new(c03::C03),
         "C04" => Box::new(c04::C04),
+        "C05" => Box::new(c05::C05),
         "C10" => Box::new(c10::C10::new()),
         "C12" => Box::new(c12::C12),
         "C13" => Box::new(c13::C13),
